@@ -288,33 +288,48 @@ func TestC03TimeHandler(t *testing.T) {
 	})
 }
 
-// c03Frames seals n frames of one class from a to b and returns their bytes.
-func c03Frames(c *core.Case, mt frame.MessageType, n int) (recv *state.Session, frames [][]byte, builder *frame.Builder) {
+// c03Pair is a keyed pair of sessions (a seals, b unseals).
+type c03Pair struct {
+	pa, pb   *vnet.Party
+	sAB, sBA *state.Session
+	builder  *frame.Builder
+}
+
+func c03NewPair(c *core.Case) *c03Pair {
 	ia, ib := 0, 8
 	if c.Mode() != "dfs" {
 		ia, ib = c.Pick("idA", 8), 8+c.Pick("idB", 8)
 	}
-	pa := vnet.NewParty(ids.Get(ia))
-	pb := vnet.NewParty(ids.Get(ib))
-	sAB := pa.SessionWith(pb)
-	sBA := pb.SessionWith(pa)
-	if err := vnet.KeyExchange(sAB, sBA); err != nil {
+	p := &c03Pair{pa: vnet.NewParty(ids.Get(ia)), pb: vnet.NewParty(ids.Get(ib)), builder: frame.NewFrameBuilder()}
+	p.sAB = p.pa.SessionWith(p.pb)
+	p.sBA = p.pb.SessionWith(p.pa)
+	if err := vnet.KeyExchange(p.sAB, p.sBA); err != nil {
 		c.Fatalf("key exchange: %v", err)
 	}
-	builder = frame.NewFrameBuilder()
+	return p
+}
+
+// seal seals n frames of one class from a to b and returns their bytes.
+func (p *c03Pair) seal(c *core.Case, mt frame.MessageType, n int) (frames [][]byte) {
 	for i := 0; i < n; i++ {
-		f, err := builder.NewFrameV1(pa.ID.Addr.IP, pb.ID.Addr.IP, mt, nil, []byte(fmt.Sprintf("payload-%04d", i)), nil)
+		f, err := p.builder.NewFrameV1(p.pa.ID.Addr.IP, p.pb.ID.Addr.IP, mt, nil, []byte(fmt.Sprintf("payload-%04d", i)), nil)
 		if err != nil {
 			c.Fatalf("new frame: %v", err)
 		}
-		if err := f.Seal(sAB); err != nil {
+		if err := f.Seal(p.sAB); err != nil {
 			c.Fatalf("seal: %v", err)
 		}
 		data, _ := f.FrameDataWithMargins(0, 0)
 		frames = append(frames, append([]byte(nil), data...))
 		f.ReturnToPool()
 	}
-	return sBA, frames, builder
+	return frames
+}
+
+// c03Frames seals n frames of one class from a to b and returns their bytes.
+func c03Frames(c *core.Case, mt frame.MessageType, n int) (recv *state.Session, frames [][]byte, builder *frame.Builder) {
+	p := c03NewPair(c)
+	return p.sBA, p.seal(c, mt, n), p.builder
 }
 
 func c03UnsealCopy(b *frame.Builder, data []byte, s *state.Session) error {
@@ -335,13 +350,43 @@ func c03FrameLevel(c *core.Case, hist []uint32, mt frame.MessageType, level stri
 			maxNum = s
 		}
 	}
-	recv, frames, b := c03Frames(c, mt, int(maxNum))
+	p := c03NewPair(c)
+	recv, b := p.sBA, p.builder
+	frames := p.seal(c, mt, int(maxNum))
 	c03Run(c, level, hist, func(s uint32) error {
 		return c03UnsealCopy(b, frames[s-1], recv)
 	}, func(s uint32) error {
 		// sequence number: bytes 8..11 of the frame header; body from the message on
 		return c03UnsealCopy(b, c03Damage(c, frames[s-1], 8, 4, 51), recv)
 	})
+	if c.Mode() == "dfs" || !c.Chance("rekey", 1, 3) {
+		return
+	}
+	// The two routers set up new keys on the same session objects (as a hello
+	// exchange does): numbering and window start afresh, the property holds for
+	// the new frames as it did for the old, and no frame of the old keys unseals.
+	kx := vnet.KeyExchangeAsHello
+	if c.Bool("rekey.in-place-on-both-sides") {
+		kx = vnet.KeyExchange
+	}
+	if err := kx(p.sAB, p.sBA); err != nil {
+		c.Fatalf("second key exchange: %v", err)
+	}
+	hist2 := c03History(c, 40, 120)
+	max2 := uint32(0)
+	for _, s := range hist2 {
+		max2 = max(max2, s)
+	}
+	frames2 := p.seal(c, mt, int(max2))
+	c03Run(c, level+"-after-rekey", hist2, func(s uint32) error {
+		return c03UnsealCopy(b, frames2[s-1], recv)
+	}, func(s uint32) error {
+		if c.Bool("forge.old-epoch") && len(frames) > 0 {
+			return c03UnsealCopy(b, frames[int(s-1)%len(frames)], recv)
+		}
+		return c03UnsealCopy(b, c03Damage(c, frames2[s-1], 8, 4, 51), recv)
+	})
+	c.Class(level + "/re-keyed-in-place")
 }
 
 func TestC03Frames(t *testing.T) {
